@@ -12,14 +12,16 @@ Open Scope N_scope.
 (* (1) FIXPOINT.  For EVERY tree in which no statement of any readable file lacks a reference
    (as the finder sees it), an uninterrupted edit run exits 0, writes no ID, leaves every source
    byte as it is, and leaves the lock value unchanged (it is rewritten with the same value, or
-   stays as it was); the finder's totality (C17) discharges the no-panic side condition. *)
+   stays as it was; a recorded 0 -- which the tool itself never writes -- becomes the first ID, 1);
+   the finder's totality (C17) discharges the no-panic side condition. *)
 Theorem C06_complete_tree_is_fixpoint : forall rc files lk o,
   files <> [] -> o_stop1 o = None -> o_stop2 o = None ->
   tree_complete find (rc_cfg rc) (o_rfail1 o) files -> tree_complete find (rc_cfg rc) (o_rfail2 o) files ->
   ro_exit (edit rc files lk o) = XOk /\ ro_ids (edit rc files lk o) = [] /\
   w_src (after rc files lk o) = files /\
   (w_lock (after rc files lk o) = lk \/
-   exists L, lk = LValid L /\ (w_lock (after rc files lk o) = LValid L \/ w_lock (after rc files lk o) = LCorrupt)).
+   exists L, lk = LValid L /\ (w_lock (after rc files lk o) = LValid (N.max L c_START_REFERENCE_ID) \/
+                             w_lock (after rc files lk o) = LCorrupt)).
 Proof.
   intros rc files lk o Hne H1 H2 Hc1 Hc2.
   apply (complete_tree_is_fixpoint the_params find c_START_REFERENCE_ID start_ge_1 start_le_max rc files lk o
